@@ -99,7 +99,8 @@ def registry():
     cell_ok = ('is_bool(cell._handled_identifiers) and implies(not Bv(cell._handled_identifiers), '
                '(is_int(cell.title) or is_str(cell.title)) and '
                '(is_int(cell.column) or (is_str(cell.column) and is_colname(cell.column))) and '
-               '(is_none(cell.row) or is_int(cell.row) or (is_str(cell.row) and (S(cell.row) == "" or is_digits(cell.row)))))')
+               '(is_none(cell.row) or is_int(cell.row) or (is_str(cell.row) and (S(cell.row) == "" or is_digits(cell.row)))) and '
+               'implies(is_str(cell.title) and has(titles, cell.title), is_int(get(titles, cell.title))))')
     reg.add(Contract(
         'handle_cell', 'repo:handle_cell.py:handle_cell', {'cell': 'obj:Cell', 'titles': 'dict'},
         requires=[cell_ok],
@@ -120,9 +121,11 @@ def registry():
                      'and unchanged("value", "old")',
             'result': 'is_none(result)',
         },
-        raises={'KeyError': 'not Bv(cell._handled_identifiers) and is_str(cell.title) and not has(titles, cell.title)'},
+        raises={'E2PyclCellException': 'not Bv(cell._handled_identifiers) and ((is_str(cell.title) and not has(titles, cell.title)) or '
+                                       '(is_str(cell.row) and S(cell.row) != "" and str_to_int(cell.row) < 1))'},
         modifies=['title', 'column', 'row', '_handled_identifiers'],
-        notes='never resolved to some other sheet: a string title is looked up in titles or KeyError'))
+        notes='never resolved to some other sheet: a string title is looked up in titles or the library cell exception; '
+              'row numbers start at 1'))
 
     ints = 'is_int(cell.title) and is_int(cell.column) and is_int(cell.row) and is_bool(cell._handled_identifiers)'
     reg.add(Contract(
@@ -191,6 +194,135 @@ def registry():
                          'unchanged("_handled_identifiers", "old")'},
         },
         modifies=['value', 'title', 'column', 'row', '_handled_identifiers']))
+
+    cell_is = ('is_obj(result[{i}]) and result[{i}].title == first.title and result[{i}].column == {col} and '
+               'result[{i}].row == {row} and result[{i}].value == lookup(self._data, first.title, {row}, {col}) and '
+               'fresh_since(result[{i}], "old")')
+    frame = ('unchanged("value", "old") and unchanged("title", "old") and unchanged("column", "old") and '
+             'unchanged("row", "old") and unchanged("_data", "old") and unchanged("_handled_identifiers", "old")')
+    # ------------------------------------------------------------ vertical range (rows of one column / whole column)
+    reg.add(Contract(
+        'Excel._get_vertical_range', 'repo:excel.py:Excel._get_vertical_range',
+        {'self': 'obj:Excel', 'first': 'obj:Cell', 'second': 'obj:Cell'}, self_class='Excel', fields=['_data', '_titles'],
+        requires=['wf_data(self._data)', 'is_int(first.title) and is_int(first.column) and is_int(second.column)',
+                  '(is_none(first.row) and 0 <= I(first.title) and I(first.title) < len(self._data)) or '
+                  '(is_int(first.row) and is_int(second.row))', 'first != second'],
+        ensures={
+            'rows_in_order': 'is_list(result) and len(result) == ite(is_none(first.row), len(self._data[I(first.title)]), '
+                             'max(0, I(second.row) - I(first.row) + 1))',
+            'cells': 'all(' + cell_is.format(i='i', col='I(first.column)', row='ite(is_none(first.row), 0, I(first.row)) + i') +
+                     ' for i in range(len(result)))',
+            'frame': frame,
+        },
+        invariants={0: {
+            'shape': 'is_list(result) and len(result) == k0 - ite(is_none(first.row), 0, I(first.row)) and '
+                     'start_row == ite(is_none(first.row), 0, first.row)',
+            'cells': 'all(' + cell_is.format(i='i', col='I(first.column)', row='ite(is_none(first.row), 0, I(first.row)) + i') +
+                     ' for i in range(len(result)))',
+            'frame': frame}},
+        modifies=['value', 'title', 'column', 'row', '_handled_identifiers'],
+        notes='rows first.row..second.row of one column, or all stored rows when the row is absent (A:A), in order'))
+    reg.add(Contract(
+        'Excel._get_horizontal_range', 'repo:excel.py:Excel._get_horizontal_range',
+        {'self': 'obj:Excel', 'first': 'obj:Cell', 'second': 'obj:Cell'}, self_class='Excel', fields=['_data', '_titles'],
+        requires=['wf_data(self._data)', 'is_int(first.title) and is_int(first.column) and is_int(second.column) and '
+                  'is_int(first.row)', 'first != second'],
+        ensures={
+            'columns_in_order': 'is_list(result) and len(result) == max(0, I(second.column) - I(first.column) + 1)',
+            'cells': 'all(' + cell_is.format(i='i', col='I(first.column) + i', row='I(first.row)') + ' for i in range(len(result)))',
+            'frame': frame,
+        },
+        invariants={0: {
+            'shape': 'is_list(result) and len(result) == k0 - I(first.column)',
+            'cells': 'all(' + cell_is.format(i='i', col='I(first.column) + i', row='I(first.row)') + ' for i in range(len(result)))',
+            'frame': frame}},
+        modifies=['value', 'title', 'column', 'row', '_handled_identifiers'],
+        notes='columns first.column..second.column of one row, in order'))
+    # ------------------------------------------------------------ get_similar_second (SUMIF target geometry)
+    hd = 'Bv({c}._handled_identifiers) and is_int({c}.title) and is_int({c}.column) and (is_int({c}.row) or is_none({c}.row))'
+    reg.add(Contract(
+        'Excel.get_similar_second', 'repo:excel.py:Excel.get_similar_second',
+        {'self': 'obj:Excel', 'base': 'obj:Cell', 'first': 'obj:Cell', 'second': 'obj:Cell'}, self_class='Excel',
+        fields=['_data', '_titles'], inline=['handle_cell'],
+        requires=[hd.format(c='base'), hd.format(c='first'), hd.format(c='second'), 'is_dict(self._titles)',
+                  'iff(is_none(first.row), is_none(second.row)) and iff(is_none(first.row), is_none(base.row))'],
+        ensures={
+            'same_geometry': 'is_obj(result) and result.title == base.title and '
+                             'I(result.column) - I(base.column) == I(second.column) - I(first.column) and '
+                             'ite(is_none(first.row), is_none(result.row), '
+                             'I(result.row) - I(base.row) == I(second.row) - I(first.row))',
+        },
+        modifies=['value', 'title', 'column', 'row', '_handled_identifiers'],
+        notes='the derived corner has the same offset from base as second has from first (SUMIF target = geometry of the '
+              'criteria range)'))
+    # ------------------------------------------------------------ fill_cell
+    reg.add(Contract(
+        'Excel.fill_cell', 'repo:excel.py:Excel.fill_cell', {'self': 'obj:Excel', 'cell': 'obj:Cell'}, self_class='Excel',
+        fields=['_data', '_titles'], inline=['handle_cell'],
+        requires=['wf_data(self._data)', 'is_dict(self._titles)',
+                  'is_bool(cell._handled_identifiers) and Bv(cell._handled_identifiers) and is_int(cell.title) and is_int(cell.column) and (is_int(cell.row) or is_none(cell.row))'],
+        ensures={'value': 'cell.value == lookup(self._data, cell.title, cell.row, cell.column)', 'result': 'result == cell'},
+        raises={'E2PyclParserException': 'is_none(cell.row)'},
+        modifies=['value'],
+        notes='a single cell needs a row; its value is the stored value at (sheet, row, column) or blank'))
+
+    hd2 = ('is_bool({c}._handled_identifiers) and Bv({c}._handled_identifiers) and is_int({c}.title) and is_int({c}.column)')
+    # ------------------------------------------------------------ get_matrix / get_range (dispatch)
+    reg.add(Contract(
+        'Excel.get_matrix/rect', 'repo:excel.py:Excel.get_matrix',
+        {'self': 'obj:Excel', 'first': 'obj:Cell', 'second': 'obj:Cell'}, self_class='Excel', fields=['_data', '_titles'],
+        inline=['handle_cell'],
+        requires=['wf_data(self._data)', 'is_dict(self._titles)', hd2.format(c='first'), hd2.format(c='second'),
+                  'is_int(first.row) and is_int(second.row)', 'first != second'],
+        ensures={
+            'rows': 'is_list(result) and len(result) == max(0, I(second.row) - I(first.row) + 1)',
+            'row_major': 'all(is_list(result[i]) and len(result[i]) == max(0, I(second.column) - I(first.column) + 1) and '
+                         'all(is_obj(result[i][j]) and result[i][j].title == first.title and '
+                         'result[i][j].column == I(first.column) + j and result[i][j].row == I(first.row) + i and '
+                         'result[i][j].value == lookup(self._data, first.title, I(first.row) + i, I(first.column) + j) '
+                         'for j in range(len(result[i]))) for i in range(len(result)))',
+        },
+        raises={'E2PyclParserException': 'I(first.row) < 0 or I(second.row) < 0 or first.title != second.title'},
+        modifies=['value', 'title', 'column', 'row', '_handled_identifiers'],
+        notes='a rectangular area evaluates to exactly its cells, row-major, blank where nothing is stored; areas across '
+              'sheets and negative rows are rejected'))
+    reg.add(Contract(
+        'Excel.get_matrix/column', 'repo:excel.py:Excel.get_matrix',
+        {'self': 'obj:Excel', 'first': 'obj:Cell', 'second': 'obj:Cell'}, self_class='Excel', fields=['_data', '_titles'],
+        inline=['handle_cell'],
+        requires=['wf_data(self._data)', 'is_dict(self._titles)', hd2.format(c='first'), hd2.format(c='second'),
+                  'is_none(first.row) and is_none(second.row) and first.column == second.column',
+                  '0 <= I(first.title) and I(first.title) < len(self._data)', 'first != second'],
+        ensures={
+            'one_row_per_stored_row': 'is_list(result) and len(result) == len(self._data[I(first.title)])',
+            'cells': 'all(is_list(result[i]) and len(result[i]) == 1 and is_obj(result[i][0]) and '
+                     'result[i][0].title == first.title and result[i][0].column == first.column and result[i][0].row == i and '
+                     'result[i][0].value == lookup(self._data, first.title, i, first.column) for i in range(len(result)))',
+        },
+        modifies=['value', 'title', 'column', 'row', '_handled_identifiers'],
+        notes='a whole-column reference A:A evaluates to every stored row of that column, top to bottom (A:C areas: '
+              'generator + zip, outside the subset, bounded monitor)'))
+    reg.add(Contract(
+        'Excel.get_range', 'repo:excel.py:Excel.get_range',
+        {'self': 'obj:Excel', 'first': 'obj:Cell', 'second': 'obj:Cell'}, self_class='Excel', fields=['_data', '_titles'],
+        inline=['handle_cell'],
+        requires=['wf_data(self._data)', 'is_dict(self._titles)', hd2.format(c='first'), hd2.format(c='second'),
+                  'is_int(first.row) and is_int(second.row)', 'first != second'],
+        ensures={
+            'vertical': 'implies(first.column == second.column, is_list(result) and '
+                        'len(result) == max(0, I(second.row) - I(first.row) + 1) and '
+                        'all(is_obj(result[i]) and result[i].title == first.title and result[i].column == first.column and '
+                        'result[i].row == I(first.row) + i and '
+                        'result[i].value == lookup(self._data, first.title, I(first.row) + i, first.column) for i in range(len(result))))',
+            'horizontal': 'implies(first.column != second.column, is_list(result) and '
+                          'len(result) == max(0, I(second.column) - I(first.column) + 1) and '
+                          'all(is_obj(result[i]) and result[i].title == first.title and result[i].row == first.row and '
+                          'result[i].column == I(first.column) + i and '
+                          'result[i].value == lookup(self._data, first.title, first.row, I(first.column) + i) for i in range(len(result))))',
+        },
+        raises={'E2PyclParserException': 'first.title != second.title or (first.column != second.column and first.row != second.row)'},
+        modifies=['value', 'title', 'column', 'row', '_handled_identifiers'],
+        notes='a one-dimensional range is the cells of its column (or row) in order; crooked or cross-sheet ranges are rejected'))
     return reg
 
 
@@ -205,3 +337,22 @@ def _externals(reg):
     reg.external('fn:column_index_from_string', col_index,
                  'openpyxl.utils.column_index_from_string(s) == colnum(s) for 1-3 upper-case letters, ValueError '
                  'otherwise (K2-checked on all 18 278 names every run)')
+
+
+def registry_uid():
+    """Cell.uid and its injectivity (string theory; separate registry so that string queries do not slow the others)."""
+    reg = base_registry(('Cell',))
+    reg.spec('int_str', lambda i: _int_to_str(_toI(i)), str, 'decimal text of an integer (str(int))')
+    reg.add(Contract(
+        'Cell.uid', 'repo:cell.py:Cell.uid', {'self': 'obj:Cell'}, self_class='Cell',
+        requires=['is_bool(self._handled_identifiers)', 'is_int(self.title) and is_int(self.column) and (is_int(self.row) or is_none(self.row))'],
+        ensures={'format': 'is_str(result) and S(result) == "_" + int_str(self.title) + "_" + int_str(self.column) + "_" + '
+                           'ite(is_none(self.row), "any", int_str(self.row))'},
+        raises={'E2PyclCellException': 'not Bv(self._handled_identifiers) and is_none(self.row)'},
+        notes='the generated method name of a cell is _<sheet>_<column>_<row|any> in decimal'))
+    return reg
+
+
+def _int_to_str(i):
+    z3 = z()
+    return z3.If(i >= 0, z3.IntToStr(i), z3.Concat(z3.StringVal('-'), z3.IntToStr(-i)))
